@@ -129,7 +129,11 @@ class K3Adapter(object):
                 tr = k3_real.execute(c)
             except Exception:
                 return None
-            for f in k3_oracle.check(prop, tr):
+            try:
+                fs = k3_oracle.check(prop, tr)
+            except Exception:
+                return None          # a shrunk sequence the oracle cannot judge (e.g. a mark without a quote) is not kept
+            for f in fs:
                 if f.get('key') == key:
                     return f
             return None
